@@ -7,9 +7,11 @@ fn esc(s: &str) -> String {
 }
 
 const NAMES_PLAIN: [&str; 8] = ["addone", "noop", "helmert", "add2", "myop", "stack", "x", "inv"];
-const NAMES_COLON: [&str; 13] = ["m:a", "m:b", "geo:in", "addone:x", "n:c", "m:a_long", "stupid:way", "stupid:addone", "stupid:way_three",
+const NAMES_COLON: [&str; 17] = ["m:a", "m:b", "geo:in", "addone:x", "n:c", "m:a_long", "stupid:way", "stupid:addone", "stupid:way_three",
     // not names of anything: a known name with one more part
-    "stupid:way:nonexistent", "stupid:addone:v2", "m:a:x", "stupid:"];
+    "stupid:way:nonexistent", "stupid:addone:v2", "m:a:x", "stupid:",
+    // a dot is part of the name, not the start of a file extension
+    "stupid:way.v2", "stupid.v2:way_too", "stupid.md:way_too", "stupid:way.resource"];
 const CTORS: [&str; 4] = ["u:add2", "u:oneway3", "u:needv", "u:needv"];
 const BODIES: [&str; 8] = ["addone", "addone | addone", "addone inv", "m:a | addone", "helmert x=$v(3)", "m:b v=5", "add2 | m:a inv", "noop"];
 
@@ -137,7 +139,8 @@ pub fn generate(g: &mut Gen, thorough: bool) {
     }
     // unknown names give errors, in every context: names that only begin like a known one
     for kind in ["default", "plain", "new", "plain-new"] {
-        for name in ["stupid:way:nonexistent", "stupid:addone:v2", "stupid::way", "stupid:wa", "stupid:way_", "geo:in:out", "geo:", ":in", "nosuch:macro", "addon", "addonee"] {
+        for name in ["stupid:way:nonexistent", "stupid:addone:v2", "stupid::way", "stupid:wa", "stupid:way_", "geo:in:out", "geo:", ":in", "nosuch:macro", "addon", "addonee",
+            "stupid:way.v2", "stupid.v2:way_too", "stupid.md:way_too", "stupid:way.resource", "stupid.old:way", "nkg.x:etrs89"] {
             g.push(format!("S_C18U\t{kind}\t{}", crate::wire::escape(name)), "oracle-unknown-names", true);
             g.push(format!("HIST\t{kind}\tO|{}\tO|addone %7c {} %7c addone", esc(name), esc(name)).replace("%7c", "\\u{7c}"), "hist-unknown-names", true);
         }
